@@ -3,7 +3,10 @@ package rtcp
 // Harness primitives, native side: nondeterministic inputs are read from a
 // replay vector; assertions and assumptions panic with marker values.
 
-import "math"
+import (
+	"math"
+	"runtime"
+)
 
 type vpObs struct {
 	Name string   `json:"name"`
@@ -54,7 +57,18 @@ func vpAssert(name string, c bool) {
 }
 func vpReach(name string)                       {}
 func vpKnown(id string, site string, pred bool) {}
-func vpAllocBytes() int                         { return 0 }
+
+// vpAllocBytes: bytes allocated by the Go runtime since the replay started
+// (cumulative, not live: the property bounds what a decode may use).
+var vpAllocBase uint64
+
+func vpTotalAlloc() uint64 {
+	var m runtime.MemStats
+	runtime.ReadMemStats(&m)
+	return m.TotalAlloc
+}
+func vpAllocBytes() int { return int(vpTotalAlloc() - vpAllocBase) }
+
 func vpFreeze()                                 {}
 func vpThaw()                                   {}
 func vpAllowWrite(p interface{})                {}
